@@ -18,7 +18,7 @@ src: conf.c
 tier: B
 bound: input <= 8 characters over {a, space, ~, ', "}; HOME unset, empty or "/h"; line-buffer limit CONFIG_BUFF scaled to 32 bytes (stated re-binding)
 unwind: 10
-flags: --unwindset strlen.0:20,strcpy.0:20,vb_a.0:20,spiftool_safe_strncpy.0:12,mk_str.0:6,strncasecmp.0:3,spifconf_shell_expand:0,spifconf_shell_expand.7:2,spifconf_shell_expand.10:1,spifconf_shell_expand.15:1,spifconf_shell_expand.21:1,spifconf_shell_expand.22:1,spifconf_shell_expand.23:1,spifconf_shell_expand.28:9,check_exact.0:10,check_exact.1:42
+flags: --unwindset strlen.0:20,strcpy.0:20,vb_a.0:20,spiftool_safe_strncpy.0:12,mk_str.0:6,strncasecmp.0:3,spifconf_shell_expand:0,spifconf_shell_expand.7:2,spifconf_shell_expand.10:1,spifconf_shell_expand.15:1,spifconf_shell_expand.21:1,spifconf_shell_expand.22:1,spifconf_shell_expand.23:1,spifconf_shell_expand.28:9,spifconf_shell_expand.29:9,check_exact.0:10,check_exact.1:42
 objbits: 10
 backend: sat
 timeout: 600
@@ -32,7 +32,7 @@ src: conf.c
 tier: B
 bound: input <= 8 characters over {a, space, backslash, ', "} that does not end in a backslash; line-buffer limit CONFIG_BUFF scaled to 32 bytes (stated re-binding)
 unwind: 10
-flags: --unwindset strlen.0:12,strcpy.0:12,vb_a.0:12,spiftool_safe_strncpy.0:12,mk_str.0:6,strncasecmp.0:3,spifconf_shell_expand:0,spifconf_shell_expand.7:2,spifconf_shell_expand.10:1,spifconf_shell_expand.15:1,spifconf_shell_expand.21:1,spifconf_shell_expand.22:1,spifconf_shell_expand.23:1,spifconf_shell_expand.28:9,check_exact.0:10,check_exact.1:42
+flags: --unwindset strlen.0:12,strcpy.0:12,vb_a.0:12,spiftool_safe_strncpy.0:12,mk_str.0:6,strncasecmp.0:3,spifconf_shell_expand:0,spifconf_shell_expand.7:2,spifconf_shell_expand.10:1,spifconf_shell_expand.15:1,spifconf_shell_expand.21:1,spifconf_shell_expand.22:1,spifconf_shell_expand.23:1,spifconf_shell_expand.28:9,spifconf_shell_expand.29:9,check_exact.0:10,check_exact.1:42
 objbits: 10
 backend: sat
 timeout: 600
@@ -46,7 +46,7 @@ src: conf.c
 tier: B
 bound: input <= 8 characters over {a, space, backslash, ', "} that ends in a backslash; line-buffer limit CONFIG_BUFF scaled to 32 bytes (stated re-binding)
 unwind: 10
-flags: --unwindset strlen.0:12,strcpy.0:12,vb_a.0:12,spiftool_safe_strncpy.0:12,mk_str.0:6,strncasecmp.0:3,spifconf_shell_expand:0,spifconf_shell_expand.7:2,spifconf_shell_expand.10:1,spifconf_shell_expand.15:1,spifconf_shell_expand.21:1,spifconf_shell_expand.22:1,spifconf_shell_expand.23:1,spifconf_shell_expand.28:9,check_exact.0:10,check_exact.1:42
+flags: --unwindset strlen.0:12,strcpy.0:12,vb_a.0:12,spiftool_safe_strncpy.0:12,mk_str.0:6,strncasecmp.0:3,spifconf_shell_expand:0,spifconf_shell_expand.7:2,spifconf_shell_expand.10:1,spifconf_shell_expand.15:1,spifconf_shell_expand.21:1,spifconf_shell_expand.22:1,spifconf_shell_expand.23:1,spifconf_shell_expand.28:9,spifconf_shell_expand.29:9,check_exact.0:10,check_exact.1:42
 objbits: 10
 backend: sat
 timeout: 600
@@ -60,7 +60,7 @@ src: conf.c
 tier: B
 bound: input <= 8 characters over {a, space, $, ', "}, every $ followed by a name; $a set to "V"; line-buffer limit CONFIG_BUFF scaled to 32 bytes (stated re-binding)
 unwind: 10
-flags: --unwindset strlen.0:14,strcpy.0:14,vb_a.0:14,spiftool_safe_strncpy.0:12,mk_str.0:6,strncasecmp.0:3,spifconf_shell_expand:0,spifconf_shell_expand.7:2,spifconf_shell_expand.10:1,spifconf_shell_expand.15:1,spifconf_shell_expand.21:8,spifconf_shell_expand.22:8,spifconf_shell_expand.23:8,spifconf_shell_expand.28:9,check_exact.0:10,check_exact.1:42
+flags: --unwindset strlen.0:14,strcpy.0:14,vb_a.0:14,spiftool_safe_strncpy.0:12,mk_str.0:6,strncasecmp.0:3,spifconf_shell_expand:0,spifconf_shell_expand.7:2,spifconf_shell_expand.10:1,spifconf_shell_expand.15:1,spifconf_shell_expand.21:8,spifconf_shell_expand.22:8,spifconf_shell_expand.23:8,spifconf_shell_expand.28:9,spifconf_shell_expand.29:9,check_exact.0:10,check_exact.1:42
 objbits: 10
 backend: sat
 timeout: 600
@@ -74,7 +74,7 @@ src: conf.c
 tier: B
 bound: input <= 8 characters over {a, space, $, ', "}, every $ followed by a name; $a unset or empty; line-buffer limit CONFIG_BUFF scaled to 32 bytes (stated re-binding)
 unwind: 10
-flags: --unwindset strlen.0:12,strcpy.0:12,vb_a.0:12,spiftool_safe_strncpy.0:12,mk_str.0:6,strncasecmp.0:3,spifconf_shell_expand:0,spifconf_shell_expand.7:2,spifconf_shell_expand.10:1,spifconf_shell_expand.15:1,spifconf_shell_expand.21:8,spifconf_shell_expand.22:8,spifconf_shell_expand.23:8,spifconf_shell_expand.28:9,check_exact.0:10,check_exact.1:42
+flags: --unwindset strlen.0:12,strcpy.0:12,vb_a.0:12,spiftool_safe_strncpy.0:12,mk_str.0:6,strncasecmp.0:3,spifconf_shell_expand:0,spifconf_shell_expand.7:2,spifconf_shell_expand.10:1,spifconf_shell_expand.15:1,spifconf_shell_expand.21:8,spifconf_shell_expand.22:8,spifconf_shell_expand.23:8,spifconf_shell_expand.28:9,spifconf_shell_expand.29:9,check_exact.0:10,check_exact.1:42
 objbits: 10
 backend: sat
 timeout: 600
@@ -88,7 +88,7 @@ src: conf.c
 tier: B
 bound: input <= 8 characters over {a, $, {, }, (, )}, every ${ and $( closed and named; $a unset, empty or "V"; line-buffer limit CONFIG_BUFF scaled to 32 bytes (stated re-binding)
 unwind: 10
-flags: --unwindset strlen.0:14,strcpy.0:14,vb_a.0:14,spiftool_safe_strncpy.0:12,mk_str.0:6,strncasecmp.0:3,spifconf_shell_expand:0,spifconf_shell_expand.7:2,spifconf_shell_expand.10:1,spifconf_shell_expand.15:1,spifconf_shell_expand.21:8,spifconf_shell_expand.22:8,spifconf_shell_expand.23:8,spifconf_shell_expand.28:9,check_exact.0:10,check_exact.1:42
+flags: --unwindset strlen.0:14,strcpy.0:14,vb_a.0:14,spiftool_safe_strncpy.0:12,mk_str.0:6,strncasecmp.0:3,spifconf_shell_expand:0,spifconf_shell_expand.7:2,spifconf_shell_expand.10:1,spifconf_shell_expand.15:1,spifconf_shell_expand.21:8,spifconf_shell_expand.22:8,spifconf_shell_expand.23:8,spifconf_shell_expand.28:9,spifconf_shell_expand.29:9,check_exact.0:10,check_exact.1:42
 objbits: 10
 backend: sat
 timeout: 600
@@ -102,7 +102,7 @@ src: conf.c
 tier: B
 bound: input <= 6 characters over {a, space, $} with a $ that names nothing; line-buffer limit CONFIG_BUFF scaled to 32 bytes (stated re-binding)
 unwind: 8
-flags: --unwindset strlen.0:12,strcpy.0:12,vb_a.0:12,spiftool_safe_strncpy.0:12,mk_str.0:6,strncasecmp.0:3,spifconf_shell_expand:0,spifconf_shell_expand.7:2,spifconf_shell_expand.10:1,spifconf_shell_expand.15:1,spifconf_shell_expand.21:6,spifconf_shell_expand.22:6,spifconf_shell_expand.23:6,spifconf_shell_expand.28:7,check_exact.0:8,check_exact.1:42
+flags: --unwindset strlen.0:12,strcpy.0:12,vb_a.0:12,spiftool_safe_strncpy.0:12,mk_str.0:6,strncasecmp.0:3,spifconf_shell_expand:0,spifconf_shell_expand.7:2,spifconf_shell_expand.10:1,spifconf_shell_expand.15:1,spifconf_shell_expand.21:6,spifconf_shell_expand.22:6,spifconf_shell_expand.23:6,spifconf_shell_expand.28:7,spifconf_shell_expand.29:7,check_exact.0:8,check_exact.1:42
 objbits: 10
 backend: sat
 timeout: 600
@@ -116,7 +116,7 @@ src: conf.c
 tier: B
 bound: inputs of the shape ?%a()? -- each ? any of {a, space, %, (, )} -- in which every % starts a balanced call; line-buffer limit CONFIG_BUFF scaled to 32 bytes (stated re-binding)
 unwind: 8
-flags: --unwindset strlen.0:16,strcpy.0:16,vb_a.0:16,spiftool_safe_strncpy.0:12,mk_str.0:6,strncasecmp.0:3,spifconf_shell_expand:1,spifconf_shell_expand.7:2,spifconf_shell_expand.10:6,spifconf_shell_expand.15:1,spifconf_shell_expand.21:1,spifconf_shell_expand.22:1,spifconf_shell_expand.23:1,spifconf_shell_expand.28:7,check_exact.0:8,check_exact.1:42
+flags: --unwindset strlen.0:16,strcpy.0:16,vb_a.0:16,spiftool_safe_strncpy.0:12,mk_str.0:6,strncasecmp.0:3,spifconf_shell_expand:1,spifconf_shell_expand.7:2,spifconf_shell_expand.10:6,spifconf_shell_expand.15:1,spifconf_shell_expand.21:1,spifconf_shell_expand.22:1,spifconf_shell_expand.23:1,spifconf_shell_expand.28:7,spifconf_shell_expand.29:7,check_exact.0:8,check_exact.1:42
 objbits: 10
 backend: sat
 timeout: 600
@@ -130,7 +130,7 @@ src: conf.c
 tier: B
 bound: inputs of the shape ??%a(a) -- each ? any of {a, space, %, (, )} -- in which every % starts a balanced call; line-buffer limit CONFIG_BUFF scaled to 32 bytes (stated re-binding)
 unwind: 9
-flags: --unwindset strlen.0:16,strcpy.0:16,vb_a.0:16,spiftool_safe_strncpy.0:12,mk_str.0:6,strncasecmp.0:3,spifconf_shell_expand:1,spifconf_shell_expand.7:2,spifconf_shell_expand.10:7,spifconf_shell_expand.15:1,spifconf_shell_expand.21:1,spifconf_shell_expand.22:1,spifconf_shell_expand.23:1,spifconf_shell_expand.28:8,check_exact.0:9,check_exact.1:42
+flags: --unwindset strlen.0:16,strcpy.0:16,vb_a.0:16,spiftool_safe_strncpy.0:12,mk_str.0:6,strncasecmp.0:3,spifconf_shell_expand:1,spifconf_shell_expand.7:2,spifconf_shell_expand.10:7,spifconf_shell_expand.15:1,spifconf_shell_expand.21:1,spifconf_shell_expand.22:1,spifconf_shell_expand.23:1,spifconf_shell_expand.28:8,spifconf_shell_expand.29:8,check_exact.0:9,check_exact.1:42
 objbits: 10
 backend: sat
 timeout: 600
@@ -144,7 +144,7 @@ src: conf.c
 tier: B
 bound: inputs of the shape %a(a)?? -- each ? any of {a, space, %, (, )} -- in which every % starts a balanced call; line-buffer limit CONFIG_BUFF scaled to 32 bytes (stated re-binding)
 unwind: 9
-flags: --unwindset strlen.0:16,strcpy.0:16,vb_a.0:16,spiftool_safe_strncpy.0:12,mk_str.0:6,strncasecmp.0:3,spifconf_shell_expand:1,spifconf_shell_expand.7:2,spifconf_shell_expand.10:7,spifconf_shell_expand.15:1,spifconf_shell_expand.21:1,spifconf_shell_expand.22:1,spifconf_shell_expand.23:1,spifconf_shell_expand.28:8,check_exact.0:9,check_exact.1:42
+flags: --unwindset strlen.0:16,strcpy.0:16,vb_a.0:16,spiftool_safe_strncpy.0:12,mk_str.0:6,strncasecmp.0:3,spifconf_shell_expand:1,spifconf_shell_expand.7:2,spifconf_shell_expand.10:7,spifconf_shell_expand.15:1,spifconf_shell_expand.21:1,spifconf_shell_expand.22:1,spifconf_shell_expand.23:1,spifconf_shell_expand.28:8,spifconf_shell_expand.29:8,check_exact.0:9,check_exact.1:42
 objbits: 10
 backend: sat
 timeout: 600
@@ -158,7 +158,7 @@ src: conf.c
 tier: B
 bound: inputs of the shape ?%a(~)? -- each ? any of {a, space, ~, ', "}: a call inside quotes; line-buffer limit CONFIG_BUFF scaled to 32 bytes (stated re-binding)
 unwind: 9
-flags: --unwindset strlen.0:24,strcpy.0:24,vb_a.0:24,spiftool_safe_strncpy.0:12,mk_str.0:6,strncasecmp.0:3,spifconf_shell_expand:1,spifconf_shell_expand.7:2,spifconf_shell_expand.10:7,spifconf_shell_expand.15:1,spifconf_shell_expand.21:1,spifconf_shell_expand.22:1,spifconf_shell_expand.23:1,spifconf_shell_expand.28:8,check_exact.0:9,check_exact.1:42
+flags: --unwindset strlen.0:24,strcpy.0:24,vb_a.0:24,spiftool_safe_strncpy.0:12,mk_str.0:6,strncasecmp.0:3,spifconf_shell_expand:1,spifconf_shell_expand.7:2,spifconf_shell_expand.10:7,spifconf_shell_expand.15:1,spifconf_shell_expand.21:1,spifconf_shell_expand.22:1,spifconf_shell_expand.23:1,spifconf_shell_expand.28:8,spifconf_shell_expand.29:8,check_exact.0:9,check_exact.1:42
 objbits: 10
 backend: sat
 timeout: 600
@@ -172,7 +172,7 @@ src: conf.c
 tier: B
 bound: 18 concrete inputs with calls of the built-in a: arguments with blanks, empty, nested two and three deep (innermost first), in sequence, inside quotes, with tilde / escape / quotes / parentheses inside the arguments; HOME and $a unset, empty or set; line-buffer limit CONFIG_BUFF scaled to 32 bytes (stated re-binding)
 unwind: 16
-flags: --unwindset strlen.0:26,strcpy.0:26,vb_a.0:26,spiftool_safe_strncpy.0:12,mk_str.0:6,strncasecmp.0:3,spifconf_shell_expand:3,spifconf_shell_expand.7:2,spifconf_shell_expand.10:14,spifconf_shell_expand.15:1,spifconf_shell_expand.21:1,spifconf_shell_expand.22:1,spifconf_shell_expand.23:1,spifconf_shell_expand.28:15,harness.0:20,harness.1:16,harness.2:20,check_exact.0:16,check_exact.1:42
+flags: --unwindset strlen.0:26,strcpy.0:26,vb_a.0:26,spiftool_safe_strncpy.0:12,mk_str.0:6,strncasecmp.0:3,spifconf_shell_expand:3,spifconf_shell_expand.7:2,spifconf_shell_expand.10:14,spifconf_shell_expand.15:1,spifconf_shell_expand.21:1,spifconf_shell_expand.22:1,spifconf_shell_expand.23:1,spifconf_shell_expand.28:15,spifconf_shell_expand.29:15,harness.0:20,harness.1:16,harness.2:20,check_exact.0:16,check_exact.1:42
 objbits: 10
 backend: sat
 timeout: 600
@@ -186,7 +186,7 @@ src: conf.c
 tier: B
 bound: 6 concrete inputs with a % that starts no call, not at the end of the input; line-buffer limit CONFIG_BUFF scaled to 32 bytes (stated re-binding)
 unwind: 16
-flags: --unwindset strlen.0:26,strcpy.0:26,vb_a.0:26,spiftool_safe_strncpy.0:12,mk_str.0:6,strncasecmp.0:3,spifconf_shell_expand:3,spifconf_shell_expand.7:2,spifconf_shell_expand.10:14,spifconf_shell_expand.15:1,spifconf_shell_expand.21:1,spifconf_shell_expand.22:1,spifconf_shell_expand.23:1,spifconf_shell_expand.28:15,harness.0:20,harness.1:16,harness.2:20,check_exact.0:16,check_exact.1:42
+flags: --unwindset strlen.0:26,strcpy.0:26,vb_a.0:26,spiftool_safe_strncpy.0:12,mk_str.0:6,strncasecmp.0:3,spifconf_shell_expand:3,spifconf_shell_expand.7:2,spifconf_shell_expand.10:14,spifconf_shell_expand.15:1,spifconf_shell_expand.21:1,spifconf_shell_expand.22:1,spifconf_shell_expand.23:1,spifconf_shell_expand.28:15,spifconf_shell_expand.29:15,harness.0:20,harness.1:16,harness.2:20,check_exact.0:16,check_exact.1:42
 objbits: 10
 backend: sat
 timeout: 600
@@ -200,7 +200,7 @@ src: conf.c
 tier: B
 bound: input <= 6 characters over {a, space, ~, backslash, {, }, (, ), ', "} not ending in a backslash, in a block of exactly strlen+1 bytes; line-buffer limit CONFIG_BUFF scaled to 32 bytes (stated re-binding)
 unwind: 8
-flags: --unwindset strlen.0:10,strcpy.0:10,vb_a.0:10,spiftool_safe_strncpy.0:12,mk_str.0:6,strncasecmp.0:3,spifconf_shell_expand:0,spifconf_shell_expand.7:2,spifconf_shell_expand.10:1,spifconf_shell_expand.15:1,spifconf_shell_expand.21:1,spifconf_shell_expand.22:1,spifconf_shell_expand.23:1,spifconf_shell_expand.28:7
+flags: --unwindset strlen.0:10,strcpy.0:10,vb_a.0:10,spiftool_safe_strncpy.0:12,mk_str.0:6,strncasecmp.0:3,spifconf_shell_expand:0,spifconf_shell_expand.7:2,spifconf_shell_expand.10:1,spifconf_shell_expand.15:1,spifconf_shell_expand.21:1,spifconf_shell_expand.22:1,spifconf_shell_expand.23:1,spifconf_shell_expand.28:7,spifconf_shell_expand.29:7
 objbits: 10
 backend: sat
 timeout: 600
@@ -214,7 +214,7 @@ src: conf.c
 tier: B
 bound: input <= 6 characters over {a, backslash, '} ending in a backslash, in a block of exactly strlen+1 bytes; line-buffer limit CONFIG_BUFF scaled to 32 bytes (stated re-binding)
 unwind: 8
-flags: --unwindset strlen.0:10,strcpy.0:10,vb_a.0:10,spiftool_safe_strncpy.0:12,mk_str.0:6,strncasecmp.0:3,spifconf_shell_expand:0,spifconf_shell_expand.7:2,spifconf_shell_expand.10:1,spifconf_shell_expand.15:1,spifconf_shell_expand.21:1,spifconf_shell_expand.22:1,spifconf_shell_expand.23:1,spifconf_shell_expand.28:7
+flags: --unwindset strlen.0:10,strcpy.0:10,vb_a.0:10,spiftool_safe_strncpy.0:12,mk_str.0:6,strncasecmp.0:3,spifconf_shell_expand:0,spifconf_shell_expand.7:2,spifconf_shell_expand.10:1,spifconf_shell_expand.15:1,spifconf_shell_expand.21:1,spifconf_shell_expand.22:1,spifconf_shell_expand.23:1,spifconf_shell_expand.28:7,spifconf_shell_expand.29:7
 objbits: 10
 backend: sat
 timeout: 600
@@ -228,7 +228,7 @@ src: conf.c
 tier: B
 bound: input <= 5 characters over {a, $, {, }, (, )} with every ${ and $( closed, in a block of exactly strlen+1 bytes; $a unset or empty; line-buffer limit CONFIG_BUFF scaled to 32 bytes (stated re-binding)
 unwind: 7
-flags: --unwindset strlen.0:10,strcpy.0:10,vb_a.0:10,spiftool_safe_strncpy.0:12,mk_str.0:6,strncasecmp.0:3,spifconf_shell_expand:0,spifconf_shell_expand.7:2,spifconf_shell_expand.10:1,spifconf_shell_expand.15:1,spifconf_shell_expand.21:5,spifconf_shell_expand.22:5,spifconf_shell_expand.23:5,spifconf_shell_expand.28:6
+flags: --unwindset strlen.0:10,strcpy.0:10,vb_a.0:10,spiftool_safe_strncpy.0:12,mk_str.0:6,strncasecmp.0:3,spifconf_shell_expand:0,spifconf_shell_expand.7:2,spifconf_shell_expand.10:1,spifconf_shell_expand.15:1,spifconf_shell_expand.21:5,spifconf_shell_expand.22:5,spifconf_shell_expand.23:5,spifconf_shell_expand.28:6,spifconf_shell_expand.29:6
 objbits: 10
 backend: sat
 timeout: 600
@@ -243,7 +243,7 @@ src: conf.c
 tier: B
 bound: input <= 5 characters over {a, $, {, }, (, )} with an unclosed ${ or $(, in a block of exactly strlen+1 bytes; line-buffer limit CONFIG_BUFF scaled to 32 bytes (stated re-binding)
 unwind: 7
-flags: --unwindset strlen.0:10,strcpy.0:10,vb_a.0:10,spiftool_safe_strncpy.0:12,mk_str.0:6,strncasecmp.0:3,spifconf_shell_expand:0,spifconf_shell_expand.7:2,spifconf_shell_expand.10:1,spifconf_shell_expand.15:1,spifconf_shell_expand.21:5,spifconf_shell_expand.22:5,spifconf_shell_expand.23:5,spifconf_shell_expand.28:6
+flags: --unwindset strlen.0:10,strcpy.0:10,vb_a.0:10,spiftool_safe_strncpy.0:12,mk_str.0:6,strncasecmp.0:3,spifconf_shell_expand:0,spifconf_shell_expand.7:2,spifconf_shell_expand.10:1,spifconf_shell_expand.15:1,spifconf_shell_expand.21:5,spifconf_shell_expand.22:5,spifconf_shell_expand.23:5,spifconf_shell_expand.28:6,spifconf_shell_expand.29:6
 objbits: 10
 backend: sat
 timeout: 600
@@ -258,7 +258,7 @@ src: conf.c
 tier: B
 bound: input <= 5 characters over {a, space, %, (, )}, every % a balanced call, in a block of exactly strlen+1 bytes; the built-in returns NULL or ""; line-buffer limit CONFIG_BUFF scaled to 32 bytes (stated re-binding)
 unwind: 7
-flags: --unwindset strlen.0:10,strcpy.0:10,vb_a.0:10,spiftool_safe_strncpy.0:12,mk_str.0:6,strncasecmp.0:3,spifconf_shell_expand:1,spifconf_shell_expand.7:2,spifconf_shell_expand.10:5,spifconf_shell_expand.15:1,spifconf_shell_expand.21:1,spifconf_shell_expand.22:1,spifconf_shell_expand.23:1,spifconf_shell_expand.28:6
+flags: --unwindset strlen.0:10,strcpy.0:10,vb_a.0:10,spiftool_safe_strncpy.0:12,mk_str.0:6,strncasecmp.0:3,spifconf_shell_expand:1,spifconf_shell_expand.7:2,spifconf_shell_expand.10:5,spifconf_shell_expand.15:1,spifconf_shell_expand.21:1,spifconf_shell_expand.22:1,spifconf_shell_expand.23:1,spifconf_shell_expand.28:6,spifconf_shell_expand.29:6
 objbits: 10
 backend: sat
 timeout: 900
@@ -273,7 +273,7 @@ src: conf.c
 tier: B
 bound: input <= 5 characters over {a, space, %, (, )} with a % that starts no call, in a block of exactly strlen+1 bytes; line-buffer limit CONFIG_BUFF scaled to 32 bytes (stated re-binding)
 unwind: 7
-flags: --unwindset strlen.0:10,strcpy.0:10,vb_a.0:10,spiftool_safe_strncpy.0:12,mk_str.0:6,strncasecmp.0:3,spifconf_shell_expand:1,spifconf_shell_expand.7:2,spifconf_shell_expand.10:5,spifconf_shell_expand.15:1,spifconf_shell_expand.21:1,spifconf_shell_expand.22:1,spifconf_shell_expand.23:1,spifconf_shell_expand.28:6
+flags: --unwindset strlen.0:10,strcpy.0:10,vb_a.0:10,spiftool_safe_strncpy.0:12,mk_str.0:6,strncasecmp.0:3,spifconf_shell_expand:1,spifconf_shell_expand.7:2,spifconf_shell_expand.10:5,spifconf_shell_expand.15:1,spifconf_shell_expand.21:1,spifconf_shell_expand.22:1,spifconf_shell_expand.23:1,spifconf_shell_expand.28:6,spifconf_shell_expand.29:6
 objbits: 10
 backend: sat
 timeout: 900
@@ -288,7 +288,7 @@ src: conf.c
 tier: B
 bound: input <= 5 characters over {a, space, %, (, )} with an unclosed %a(, in a block of exactly strlen+1 bytes; line-buffer limit CONFIG_BUFF scaled to 32 bytes (stated re-binding)
 unwind: 7
-flags: --unwindset strlen.0:10,strcpy.0:10,vb_a.0:10,spiftool_safe_strncpy.0:12,mk_str.0:6,strncasecmp.0:3,spifconf_shell_expand:1,spifconf_shell_expand.7:2,spifconf_shell_expand.10:5,spifconf_shell_expand.15:1,spifconf_shell_expand.21:1,spifconf_shell_expand.22:1,spifconf_shell_expand.23:1,spifconf_shell_expand.28:6
+flags: --unwindset strlen.0:10,strcpy.0:10,vb_a.0:10,spiftool_safe_strncpy.0:12,mk_str.0:6,strncasecmp.0:3,spifconf_shell_expand:1,spifconf_shell_expand.7:2,spifconf_shell_expand.10:5,spifconf_shell_expand.15:1,spifconf_shell_expand.21:1,spifconf_shell_expand.22:1,spifconf_shell_expand.23:1,spifconf_shell_expand.28:6,spifconf_shell_expand.29:6
 objbits: 10
 backend: sat
 timeout: 900
@@ -303,7 +303,7 @@ src: conf.c
 tier: B
 bound: input <= 4 characters over {a, back-quote} in a block of exactly strlen+1 bytes; builtin_exec cannot create its temporary file and returns NULL; line-buffer limit CONFIG_BUFF scaled to 32 bytes (stated re-binding)
 unwind: 6
-flags: --unwindset strlen.0:10,strcpy.0:10,vb_a.0:10,spiftool_safe_strncpy.0:12,mk_str.0:6,strncasecmp.0:3,spifconf_shell_expand:1,spifconf_shell_expand.7:2,spifconf_shell_expand.10:1,spifconf_shell_expand.15:5,spifconf_shell_expand.21:1,spifconf_shell_expand.22:1,spifconf_shell_expand.23:1,spifconf_shell_expand.28:5,strcat.0:4
+flags: --unwindset strlen.0:16,strcpy.0:16,vb_a.0:10,spiftool_safe_strncpy.0:12,mk_str.0:6,strncasecmp.0:3,spifconf_shell_expand:1,spifconf_shell_expand.7:2,spifconf_shell_expand.10:1,spifconf_shell_expand.15:5,spifconf_shell_expand.21:1,spifconf_shell_expand.22:1,spifconf_shell_expand.23:1,spifconf_shell_expand.28:5,spifconf_shell_expand.29:5,strcat.0:4
 objbits: 10
 backend: sat
 timeout: 600
@@ -317,7 +317,7 @@ src: conf.c
 tier: B
 bound: two calls, input <= 6 characters over {a, space, ~, backslash, ', "} not ending in a backslash, different leftovers; line-buffer limit CONFIG_BUFF scaled to 32 bytes (stated re-binding)
 unwind: 8
-flags: --unwindset strlen.0:16,strcpy.0:16,vb_a.0:16,spiftool_safe_strncpy.0:12,mk_str.0:6,strncasecmp.0:3,spifconf_shell_expand:0,spifconf_shell_expand.7:2,spifconf_shell_expand.10:1,spifconf_shell_expand.15:1,spifconf_shell_expand.21:1,spifconf_shell_expand.22:1,spifconf_shell_expand.23:1,spifconf_shell_expand.28:7,strcmp.0:16
+flags: --unwindset strlen.0:16,strcpy.0:16,vb_a.0:16,spiftool_safe_strncpy.0:12,mk_str.0:6,strncasecmp.0:3,spifconf_shell_expand:0,spifconf_shell_expand.7:2,spifconf_shell_expand.10:1,spifconf_shell_expand.15:1,spifconf_shell_expand.21:1,spifconf_shell_expand.22:1,spifconf_shell_expand.23:1,spifconf_shell_expand.28:7,spifconf_shell_expand.29:7,strcmp.0:16
 objbits: 10
 backend: sat
 timeout: 600
@@ -331,7 +331,7 @@ src: conf.c
 tier: B
 bound: two calls, input <= 6 characters over {a, space, $, {, }} with every ${ closed and named, different leftovers; line-buffer limit CONFIG_BUFF scaled to 32 bytes (stated re-binding)
 unwind: 8
-flags: --unwindset strlen.0:12,strcpy.0:12,vb_a.0:12,spiftool_safe_strncpy.0:12,mk_str.0:6,strncasecmp.0:3,spifconf_shell_expand:0,spifconf_shell_expand.7:2,spifconf_shell_expand.10:1,spifconf_shell_expand.15:1,spifconf_shell_expand.21:6,spifconf_shell_expand.22:6,spifconf_shell_expand.23:6,spifconf_shell_expand.28:7,strcmp.0:12
+flags: --unwindset strlen.0:12,strcpy.0:12,vb_a.0:12,spiftool_safe_strncpy.0:12,mk_str.0:6,strncasecmp.0:3,spifconf_shell_expand:0,spifconf_shell_expand.7:2,spifconf_shell_expand.10:1,spifconf_shell_expand.15:1,spifconf_shell_expand.21:6,spifconf_shell_expand.22:6,spifconf_shell_expand.23:6,spifconf_shell_expand.28:7,spifconf_shell_expand.29:7,strcmp.0:12
 objbits: 10
 backend: sat
 timeout: 600
@@ -345,7 +345,7 @@ src: conf.c
 tier: B
 bound: input <= 4 characters over {a, ~, $, '}; HOME and $a unset or any string of <= 14 characters; line-buffer limit CONFIG_BUFF scaled to 12 bytes (stated re-binding)
 unwind: 8
-flags: --unwindset strlen.0:16,strcpy.0:16,vb_a.0:16,spiftool_safe_strncpy.0:12,mk_str.0:6,strncasecmp.0:3,spifconf_shell_expand:0,spifconf_shell_expand.7:2,spifconf_shell_expand.10:1,spifconf_shell_expand.15:1,spifconf_shell_expand.21:4,spifconf_shell_expand.22:4,spifconf_shell_expand.23:4,spifconf_shell_expand.28:5,pick_value.0:16,harness.1:14
+flags: --unwindset strlen.0:16,strcpy.0:16,vb_a.0:16,spiftool_safe_strncpy.0:12,mk_str.0:6,strncasecmp.0:3,spifconf_shell_expand:0,spifconf_shell_expand.7:2,spifconf_shell_expand.10:1,spifconf_shell_expand.15:1,spifconf_shell_expand.21:4,spifconf_shell_expand.22:4,spifconf_shell_expand.23:4,spifconf_shell_expand.28:5,spifconf_shell_expand.29:5,pick_value.0:16,harness.1:14
 objbits: 10
 backend: sat
 timeout: 600
@@ -359,7 +359,7 @@ src: conf.c
 tier: B
 bound: input ${ + 127 x a + <= 5 characters of {a, }, ), space}; line-buffer limit CONFIG_BUFF scaled to 160 bytes (stated re-binding)
 unwind: 8
-flags: --unwindset strlen.0:140,strcpy.0:140,vb_a.0:142,spiftool_safe_strncpy.0:12,mk_str.0:6,strncasecmp.0:3,spifconf_shell_expand:0,spifconf_shell_expand.7:2,spifconf_shell_expand.10:1,spifconf_shell_expand.15:1,spifconf_shell_expand.21:130,spifconf_shell_expand.22:130,spifconf_shell_expand.23:130,spifconf_shell_expand.28:8,harness.0:128,harness.1:6
+flags: --unwindset strlen.0:140,strcpy.0:140,vb_a.0:142,spiftool_safe_strncpy.0:12,mk_str.0:6,strncasecmp.0:3,spifconf_shell_expand:0,spifconf_shell_expand.7:2,spifconf_shell_expand.10:1,spifconf_shell_expand.15:1,spifconf_shell_expand.21:130,spifconf_shell_expand.22:130,spifconf_shell_expand.23:130,spifconf_shell_expand.28:8,spifconf_shell_expand.29:8,harness.0:128,harness.1:6
 objbits: 10
 backend: sat
 timeout: 600
@@ -373,7 +373,7 @@ src: conf.c
 tier: B
 bound: input $( + 127 x a + <= 5 characters of {a, }, ), space}; line-buffer limit CONFIG_BUFF scaled to 160 bytes (stated re-binding)
 unwind: 8
-flags: --unwindset strlen.0:140,strcpy.0:140,vb_a.0:142,spiftool_safe_strncpy.0:12,mk_str.0:6,strncasecmp.0:3,spifconf_shell_expand:0,spifconf_shell_expand.7:2,spifconf_shell_expand.10:1,spifconf_shell_expand.15:1,spifconf_shell_expand.21:130,spifconf_shell_expand.22:130,spifconf_shell_expand.23:130,spifconf_shell_expand.28:8,harness.0:128,harness.1:6
+flags: --unwindset strlen.0:140,strcpy.0:140,vb_a.0:142,spiftool_safe_strncpy.0:12,mk_str.0:6,strncasecmp.0:3,spifconf_shell_expand:0,spifconf_shell_expand.7:2,spifconf_shell_expand.10:1,spifconf_shell_expand.15:1,spifconf_shell_expand.21:130,spifconf_shell_expand.22:130,spifconf_shell_expand.23:130,spifconf_shell_expand.28:8,spifconf_shell_expand.29:8,harness.0:128,harness.1:6
 objbits: 10
 backend: sat
 timeout: 600
@@ -387,7 +387,7 @@ src: conf.c
 tier: B
 bound: input $ + 127 x a + <= 5 characters of {a, }, ), space}; line-buffer limit CONFIG_BUFF scaled to 160 bytes (stated re-binding)
 unwind: 8
-flags: --unwindset strlen.0:140,strcpy.0:140,vb_a.0:142,spiftool_safe_strncpy.0:12,mk_str.0:6,strncasecmp.0:3,spifconf_shell_expand:0,spifconf_shell_expand.7:2,spifconf_shell_expand.10:1,spifconf_shell_expand.15:1,spifconf_shell_expand.21:130,spifconf_shell_expand.22:130,spifconf_shell_expand.23:130,spifconf_shell_expand.28:8,harness.0:128,harness.1:6
+flags: --unwindset strlen.0:140,strcpy.0:140,vb_a.0:142,spiftool_safe_strncpy.0:12,mk_str.0:6,strncasecmp.0:3,spifconf_shell_expand:0,spifconf_shell_expand.7:2,spifconf_shell_expand.10:1,spifconf_shell_expand.15:1,spifconf_shell_expand.21:130,spifconf_shell_expand.22:130,spifconf_shell_expand.23:130,spifconf_shell_expand.28:8,spifconf_shell_expand.29:8,harness.0:128,harness.1:6
 objbits: 10
 backend: sat
 timeout: 600
